@@ -65,6 +65,9 @@ type wireServer struct {
 	queued int
 }
 
+// clientName is the host name the client under test is configured with.
+const clientName = "mx.client.example"
+
 type job struct {
 	text  string
 	delay time.Duration
@@ -196,7 +199,7 @@ func (s *wireServer) drain() {
 }
 
 func (s *wireServer) ev(f map[string]interface{}) {
-	base := map[string]interface{}{"k": "", "verb": "", "par": []string{}, "ak": "", "an": 0, "id": 0, "r": "",
+	base := map[string]interface{}{"k": "", "verb": "", "hn": "", "par": []string{}, "ak": "", "an": 0, "id": 0, "r": "",
 		"tls": s.tlsOn, "full": false, "i": 0}
 	for k, v := range f {
 		base[k] = v
@@ -284,7 +287,18 @@ func (s *wireServer) serve() {
 		} else {
 			k, id = "seq", s.newID()
 		}
-		s.ev(map[string]interface{}{"k": "cmd", "verb": verb, "par": par, "ak": ak, "an": an, "id": id, "r": k})
+		hn := ""
+		if verb == "EHLO" || verb == "LHLO" || verb == "HELO" {
+			switch arg {
+			case "localhost":
+				hn = "local"
+			case clientName:
+				hn = "name"
+			default:
+				hn = "other"
+			}
+		}
+		s.ev(map[string]interface{}{"k": "cmd", "verb": verb, "hn": hn, "par": par, "ak": ak, "an": an, "id": id, "r": k})
 		pos := k == "ok" || k == "lok" || k == "okm"
 		switch verb {
 		case "EHLO", "LHLO":
